@@ -256,3 +256,64 @@ Proof.
   unfold write_start_attr. cbv zeta. set (r := phys2raw_none I O F MIN MAX).
   destruct (negb (r =? 0)) eqn:A; destruct (negb (I =? 0)) eqn:B; destruct attr_in; cbn; rewrite ?A, ?B; reflexivity.
 Qed.
+
+(* ---- 10. long names of the signals of one frame: colliding shortened names get a numeric suffix ---- *)
+Definition pfin (p : text * text) : nobj := (fst p, if is_long (snd p) then Some (snd p) else None).
+Definition pmk (p : text * text) : nobj := (fst p, None).
+
+Lemma pairs_fold todo : forall done,
+  NoDup (map fst (done ++ todo)) ->
+  fold_left (fun os kv => set_first_attr (fst kv) (snd kv) os)
+            (flat_map (fun p => if is_long (snd p) then [(fst p, snd p)] else []) todo)
+            (map pfin done ++ map pmk todo)
+  = map pfin (done ++ todo).
+Proof.
+  induction todo as [|x t IH]; intros done Hnd.
+  - cbn. rewrite !app_nil_r. reflexivity.
+  - assert (Hnd' : NoDup (map fst ((done ++ [x]) ++ t))) by (rewrite <- app_assoc; exact Hnd).
+    specialize (IH (done ++ [x]) Hnd').
+    replace (done ++ x :: t) with ((done ++ [x]) ++ t) by (rewrite <- app_assoc; reflexivity).
+    rewrite <- IH. cbn [flat_map map]. rewrite map_app. cbn [map]. rewrite <- app_assoc. cbn [app].
+    destruct (is_long (snd x)) eqn:Hl.
+    + cbn [app fold_left fst snd]. unfold pmk at 1. rewrite set_first_attr_skip.
+      * unfold pfin at 3. rewrite Hl. reflexivity.
+      * intros o Ho. apply in_map_iff in Ho. destruct Ho as [y [<- Hy]]. cbn [pfin fst].
+        intros E. rewrite map_app in Hnd. apply NoDup_remove_2 in Hnd.
+        apply Hnd. apply in_or_app. left. cbn [map]. rewrite <- E. apply in_map. exact Hy.
+    + cbn [app]. unfold pfin at 3. rewrite Hl. reflexivity.
+Qed.
+
+Lemma out_pairs_snd a ns : forall seen, map snd (out_pairs a seen ns) = ns.
+Proof. induction ns as [|n r IH]; intros seen; cbn [out_pairs map snd]; [reflexivity|]. rewrite IH. reflexivity. Qed.
+
+Lemma out_pairs_fst a ns : forall seen p, In p (out_pairs a seen ns) ->
+  In (snd p) ns /\
+  exists k, fst p = short_name (snd p) ++ (if (1 <? count_name (short_name (snd p)) a)%nat then nat_text k else []).
+Proof.
+  induction ns as [|n r IH]; intros seen p Hp; [contradiction|]. cbn [out_pairs] in Hp. destruct Hp as [<- | Hp].
+  - cbn [fst snd]. split; [left; reflexivity|]. eexists. reflexivity.
+  - destruct (IH _ p Hp) as [Hin Hk]. split; [right; exact Hin|exact Hk].
+Qed.
+
+Lemma suffixed_names_roundtrip ns :
+  NoDup (w_out_names ns) ->
+  (forall n, In n ns -> is_long n = false -> count_name (short_name n) (map short_name ns) = 1%nat) ->
+  r_names (w_out_names ns) (w_out_attrs ns) = ns.
+Proof.
+  intros Hnd Hshort. unfold r_names, w_out_names, w_out_attrs. rewrite map_map.
+  pose proof (pairs_fold (w_out_pairs ns) [] Hnd) as H. cbn [map app] in H.
+  change (map (fun x : text * text => (fst x, None)) (w_out_pairs ns)) with (map pmk (w_out_pairs ns)). rewrite H.
+  rewrite map_map. rewrite <- (out_pairs_snd (map short_name ns) ns []) at 2. fold (w_out_pairs ns).
+  apply map_ext_in. intros p Hp. unfold pfin. cbn [fst snd]. destruct (is_long (snd p)) eqn:Hl; [reflexivity|].
+  destruct (out_pairs_fst _ _ _ _ Hp) as [Hin [k Hk]]. rewrite Hk, (Hshort _ Hin Hl). cbn. rewrite app_nil_r.
+  apply short_name_id. exact Hl.
+Qed.
+
+(* the suffix makes shared 32-character prefixes work: the two clashing names of section 5 survive *)
+Lemma suffixed_clash_ok : r_names (w_out_names [clash_a; clash_b]) (w_out_attrs [clash_a; clash_b]) = [clash_a; clash_b].
+Proof. vm_compute. reflexivity. Qed.
+
+(* ... but a name that IS the common 32-character prefix keeps its suffix (no attribute is written for a short name) *)
+Lemma suffixed_needs_long_names :
+  r_names (w_out_names [repeat 65 32; clash_a]) (w_out_attrs [repeat 65 32; clash_a]) = [repeat 65 32 ++ [48]; clash_a].
+Proof. vm_compute. reflexivity. Qed.
